@@ -133,7 +133,7 @@ class C09(Check):
         spec = models.gen_net(rng, n_nodes=rng.randint(2, 5), libs=('lin', 'leak', 'integ', 'osc', 'linl'), max_edges=6,
                               delays=delays, hier=rng.random() < 0.2,
                               # multi-operator nodes: the delayed source variable is also read by a second operator of its node
-                              readouts=(0.5, 0.0) if rng.random() < 0.3 else None)
+                              readouts=(0.5, 0.0, 0.5) if rng.random() < 0.3 else None)
         if stratum in ('S-alldelayed', 'S-mixed') and rng.random() < 0.12:
             # feature interaction: complex-valued state variables on delayed edges (ring buffers must carry complex values)
             spec = models.gen_net(rng, n_nodes=rng.randint(2, 5), libs=('cz',), max_edges=6, delays=delays, build='python')
@@ -481,7 +481,7 @@ class C09(Check):
                     if net.inst[(node, opn)]['lib'] == 'rd':
                         # second operator of a multi-operator node: it reads the CURRENT value of its sibling's variable,
                         # whether or not that variable also feeds delayed edges
-                        want = yn[net.inst[(node, opn)]['reads']]
+                        want = net.undelayed_input(yn, node, opn)
                         if abs(g - want) > 1e-9 * max(1.0, abs(want), abs(g)):
                             V('L-delay', 'silent', 'intra-node',
                               f'evaluation {e} (step {k}): {node}/{opn} reads {net.inst[(node, opn)]["reads"]} and received {g!r}, '
